@@ -40,6 +40,10 @@ LUA_FILES = {
     'a.lua.lua': b'dd=4\n',
     # files that contribute no line / one empty line
     'empty.lua': b'',
+    # files with carriage returns (saved on Windows / old Mac; a CR LF inside a long string): spliced as they are
+    'crlf.lua': b'wa=1\r\nwb=2\r\n',
+    'cr.lua': b'ma=1\rmb=2\r',
+    'crstr.lua': b's=[[a\r\nb\rc]]\nt=1\r\n',
     'nl.lua': b'\n',
     'sub/empty.lua': b'',
 }
@@ -89,6 +93,7 @@ def line_kinds():
     kinds = [('plain', b'a=1\n'), ('plain', b'b=2 -- #include inc.lua\n')]
     kinds += [('lua', 'inc.lua'), ('lua', 'incn.lua'), ('lua', 'sub/s.lua'), ('lua', 'nest.lua'), ('lua', 'lnk.lua')]
     kinds += [('lua', 'empty.lua'), ('lua', 'nl.lua'), ('lua', 'sub/empty.lua')]
+    kinds += [('lua', 'crlf.lua'), ('lua', 'cr.lua'), ('lua', 'crstr.lua')]
     kinds += [('lua', 'inc0.p8.lua'), ('lua', 'libs.p8/util.lua'), ('lua', 'a.lua.lua'), ('missing', 'plain.lua.p8'), ('missing', 'inc.lua.lua')]
     kinds += [('p8', 'inc0', None), ('p8', 'inc2', None), ('p8', 'inc3e', None)]
     kinds += [('p8', 'inc2', n) for n in range(0, 5)]
